@@ -64,6 +64,12 @@ def sqla_bases():
     B["query-ordered"] = (lambda s: s.query(P).order_by(P.title, P.id.desc()), True)
     B["query-joined-rel"] = (lambda s: s.query(P).join(P.author), False)
     B["query-joined-rel-outer"] = (lambda s: s.query(P).join(P.author, isouter=True), False)
+    # the selected entity is NOT the first thing in the FROM chain
+    B["select-from-other"] = (lambda s: sa.select(P.id).select_from(A).join(A.posts), False)
+    B["select-from-join"] = (lambda s: sa.select(P.id).select_from(sa.join(A, P, P.author_id == A.id)), False)
+    B["select-from-self"] = (lambda s: sa.select(P.id).select_from(P), False)
+    B["query-select-from-other"] = (lambda s: s.query(P).select_from(A).join(A.posts), False)
+    B["joined-rel-outer-with-column"] = (lambda s: sa.select(P, A.name).join(P.author, isouter=True), False)
     # the root entity is an alias of the mapped class (plain, pre-filtered, over a subquery)
     from sqlalchemy.orm import aliased
 
@@ -192,8 +198,13 @@ def judge(ctx, graph, inst_name, kind, bname, base_fn, ordered, t, twice=False):
         return
     except Exception as e:
         keys = findings.shorthand_triggers(kind, bname, t)
+        targets = findings._to_one_targets(t, "post")
+        # entities the base query itself already has in its FROM chain without the shorthand
+        # being able to tell (they were not joined THROUGH the relationship the filter uses)
+        base_has = {"select-from-other": {"author"}, "select-from-join": {"author"},
+                    "query-select-from-other": {"author"}}.get(bname, set())
         if kind == "sqlalchemy" and "ambiguous column" in str(e) and \
-                any(len(v) > 1 for v in findings._to_one_targets(t, "post").values()):
+                (any(len(v) > 1 for v in targets.values()) or any(tb in targets for tb in base_has)):
             # the listed mechanism only: an execution error for a filter that reaches one
             # entity through two different to-one paths
             keys = keys + ["sqla-same-entity-via-two-paths"]
